@@ -72,10 +72,12 @@ Inv_C12_Shape == (m.st = "fail" => C12_Shape(DP, m.err)) /\ (phase = "pack" /\ p
 \* ---- export of every terminal behaviour (spec -> code replay)
 Emit == Terminal =>
     PrintT(<<"EMIT", ToJson([d |-> di, raw |-> Raw, start |-> start,
-                             u |-> [st |-> m.st, cur |-> m.cur, err |-> m.err, reads |-> m.reads,
+                             u |-> [st |-> m.st, cur |-> m.cur, err |-> m.err, errv |-> GenErr(DP, m.err, TRUE, m.hookname # ""),
+                                    errn |-> GenErr(DP, m.err, FALSE, m.hookname # ""), reads |-> m.reads,
                                     evs |-> m.evs, result |-> m.result, regs |-> m.regs],
                              p |-> IF phase = "pack"
-                                   THEN [st |-> p.st, out |-> p.out, err |-> p.err, writes |-> p.writes,
+                                   THEN [st |-> p.st, out |-> p.out, err |-> p.err, errv |-> GenErr(DP, p.err, TRUE, p.hookname # ""),
+                                         errn |-> GenErr(DP, p.err, FALSE, p.hookname # ""), writes |-> p.writes,
                                          evs |-> p.evs, cur |-> p.frag.cur, dev |-> Dev_F5(MU, MP)]
                                    ELSE NoPack])>>)
 =============================================================================
